@@ -164,6 +164,18 @@ def run(ctx):
             sc["id"] = "qc%d" % len(scs)
             sc["family"] = "sequence"
             scs.append(sc)
+    # requests that each fill a packet of the small connection: every one travels alone (a multi-service packet of one, or bare)
+    for j in range(3):
+        proj, mem, _ = gen_project(rnd, n_tags=1, programs=0, junk=False,
+                                   big_tags=[{"name": "A%d" % k, "code": 0xC4, "dims": [rnd.choice([100, 105, 110])]} for k in range(4)] + [{"name": "D1", "code": 0xC4, "dims": []}])
+        big = S.read_call([R([("A%d" % k, [])], count=100) for k in range(3)])
+        bigw = S.write_call([R([("A%d" % k, [])], count=100, value=list(range(100))) for k in range(2)] + [R([("D1", [])], value=1)])
+        calls = o["read1"][:0] + [S.read_call([R([("D1", [])])]), big, bigw, big, S.read_call([R([("D1", [])])])]
+        if j:
+            calls = [{"api": "advance_sequence", "n": 65535 - 2 - j}] + calls
+        scs.append({"id": "qa%d" % j, "family": "sequence", "target": {"policy": "LargeRefused", "identity": S.identity(fw=32)},
+                    "project": proj, "mem": mem, "driver": {"kind": "logix", "path": "10.3.3.4", "route": [S.port_seg("bp", 0)], "init_tags": True},
+                    "calls": [{"api": "open"}] + calls + [{"api": "close"}], "budget": 30000})
     # SLC / MicroLogix sessions: data-file reads and the data-log queue (one connected request per record + one to clear)
     from . import c18
     for j in range(4):
